@@ -351,7 +351,8 @@ Proof.
   rewrite Hsc, Hec. rewrite Z.min_r by lia. f_equal. f_equal. f_equal. f_equal. lia.
 Qed.
 
-Theorem cai_optimize_reaches_every_codon_best_partial :
+(* the strong form: moreover nothing changes outside the coding region *)
+Theorem cai_optimize_reaches_every_codon_best_outside_partial :
   forall (lf lb : list (dna * Q)) (l : loc) (space : mspace) (n : Z) (cfg : settings) (cs : list spec)
          (enforced passive : spec -> bool) st o st',
     wf_space space -> (forall c, In c (choices_list space) -> cend c <= n) ->
@@ -371,7 +372,9 @@ Theorem cai_optimize_reaches_every_codon_best_partial :
     optimize spec b_ev Specs.localized b_reinit enforced (fun _ => Some 0%Q) b_boost passive (fun _ => None)
              cfg space cs [SMaximizeCAI lf lb l] st = (o, st') ->
     o = ODone /\ good space n (cur _ st') /\
-    forall i, 0 <= i < loc_len l / 3 -> codon_best lf lb l (cur _ st') i.
+    (forall i, 0 <= i < loc_len l / 3 -> codon_best lf lb l (cur _ st') i) /\
+    (forall i, 0 <= i -> ~ (lstart l <= i < lend l) ->
+       nth_error (cur _ st') (Z.to_nat i) = nth_error (cur _ st) (Z.to_nat i)).
 Proof.
   intros lf lb l space n cfg cs enforced passive st o st' Hwf Hfit Hspec Hs Hfb Hcs Hpas Hst Hblock Hopt.
   cbn [wf_spec] in Hspec. destruct Hspec as (Hl & Hmod & Htf & Htb).
@@ -453,14 +456,49 @@ Proof.
               (fun _ => Some 0%Q) b_boost (fun _ => None) space n Hwf Hfit obj (cai_units l) (ugap lf lb) cfg cs
               H1 H2 eq_refl H3 eq_refl H4 H5 H6 H7 passive st o st' Hpas Hst H8 H9 Hopt)
     as (Ho & Hg & _ & Hall).
-  split; [exact Ho|]. split; [exact Hg|].
-  intros i Hi.
-  destruct (cai_units_has l k i Hlen Hi) as (u & Hu & E1 & E2).
-  pose proof (Hall u Hu) as Hz. rewrite (ugap_codon lf lb l u _ i Hs E1 E2) in Hz.
-  destruct Hg as [Hn _].
-  destruct (codon_entries lf lb Htf Htb l (cur _ st') k i) as (f & bb & Hf & Hb & Hc);
-    [rewrite Hn; exact Hl | exact Hlen | exact Hs | exact Hi|].
-  exists f, bb. split; [exact Hf|]. split; [exact Hb|]. lra.
+  pose proof (optimize_outside_initially_open_gaps spec b_ev Specs.localized b_reinit enforced
+              (fun _ => Some 0%Q) b_boost (fun _ => None) space n Hwf Hfit obj (cai_units l) (ugap lf lb) cfg cs
+              H1 H2 eq_refl H3 eq_refl H4 H5 H6 H7 passive st o st' Hpas Hst H8 H9 Hopt) as Hout.
+  split; [exact Ho|]. split; [exact Hg|]. split.
+  - intros i Hi.
+    destruct (cai_units_has l k i Hlen Hi) as (u & Hu & E1 & E2).
+    pose proof (Hall u Hu) as Hz. rewrite (ugap_codon lf lb l u _ i Hs E1 E2) in Hz.
+    destruct Hg as [Hn _].
+    destruct (codon_entries lf lb Htf Htb l (cur _ st') k i) as (f & bb & Hf & Hb & Hc);
+      [rewrite Hn; exact Hl | exact Hlen | exact Hs | exact Hi|].
+    exists f, bb. split; [exact Hf|]. split; [exact Hb|]. lra.
+  - intros i Hi Hni. apply Hout; [exact Hi|].
+    intros u Hu. apply filter_In in Hu. destruct Hu as [Hu _].
+    destruct (cai_units_In l k u Hlen Hk Hu) as (j & Hj & E1 & E2).
+    unfold loc_len in Hlen. lia.
+Qed.
+
+Theorem cai_optimize_reaches_every_codon_best_partial :
+  forall (lf lb : list (dna * Q)) (l : loc) (space : mspace) (n : Z) (cfg : settings) (cs : list spec)
+         (enforced passive : spec -> bool) st o st',
+    wf_space space -> (forall c, In c (choices_list space) -> cend c <= n) ->
+    wf_spec (SMaximizeCAI lf lb l) n -> lstrand l = 1 ->
+    (forall c f b, qassoc c lf = Some f -> qassoc c lb = Some b -> (f <= b)%Q) ->
+    (forall c w s, In c cs ->
+       match Specs.localized c w true s with
+       | LSome c' => enforced c' = true
+       | LNone => True
+       | LError => False
+       end) ->
+    passive (SMaximizeCAI lf lb l) = false ->
+    state_good spec space n st ->
+    (forall e B s, Specs.evaluate (SMaximizeCAI lf lb l) (cur _ st) = Some e ->
+       In B (match locs e with Some ls => ls | None => [] end) -> good space n s ->
+       block_searchable space n cfg lf lb l B s) ->
+    optimize spec b_ev Specs.localized b_reinit enforced (fun _ => Some 0%Q) b_boost passive (fun _ => None)
+             cfg space cs [SMaximizeCAI lf lb l] st = (o, st') ->
+    o = ODone /\ good space n (cur _ st') /\
+    forall i, 0 <= i < loc_len l / 3 -> codon_best lf lb l (cur _ st') i.
+Proof.
+  intros lf lb l space n cfg cs enforced passive st o st' Hwf Hfit Hspec Hs Hfb Hcs Hpas Hst Hblock Hopt.
+  destruct (cai_optimize_reaches_every_codon_best_outside_partial lf lb l space n cfg cs enforced passive st o st'
+              Hwf Hfit Hspec Hs Hfb Hcs Hpas Hst Hblock Hopt) as (A & B & C & _).
+  split; [exact A|]. split; [exact B | exact C].
 Qed.
 
 (* Why the synonymous-codon space of EnforceTranslation satisfies [block_searchable].
